@@ -370,6 +370,8 @@ func judgeAPI(c apiCase, rec *hx.Rec) string {
 		add(f.executed, "executed_cycle")
 		add(f.respawn, "respawn_dead_warrior")
 		add(f.lenient, "runcycle_did_nothing_on_decided_battle")
+		add(len(c.Calls) >= 300, "sequence_ge_300_calls")
+		add(c.Cfg.P > 256, "process_limit_gt_256")
 		nt := f.executed && (f.reset || f.invalidIdx || f.onFinished)
 		rec.Case(nt, hx.HashJSON(c), func() any {
 			var s []string
